@@ -19,6 +19,7 @@ import (
 	"math"
 
 	"rcproxy/core/pkg/buffer/linkedlist"
+	"rcproxy/core/pkg/buffer/ring"
 	gerrors "rcproxy/core/pkg/errors"
 )
 
@@ -139,7 +140,7 @@ func (mb *Buffer) ReadFrom(r io.Reader) (int64, error) {
 
 // WriteTo implements io.WriterTo.
 func (mb *Buffer) WriteTo(w io.Writer) (n int64, err error) {
-	if n, err = mb.ringBuffer.WriteTo(w); err != nil {
+	if n, err = mb.ringBuffer.WriteTo(w); err != nil && err != ring.ErrIsEmpty {
 		return
 	}
 	var m int64
